@@ -9,6 +9,7 @@ import (
 	"flag"
 	"fmt"
 	"os"
+	"runtime"
 
 	"verif/harness/internal/proto"
 )
@@ -19,6 +20,9 @@ type protoImpl struct {
 }
 
 var protos = map[string]protoImpl{}
+
+var optImpl, optScratch, optStream string
+var optPin bool
 
 func main() {
 	if len(os.Args) < 3 {
@@ -33,8 +37,16 @@ func main() {
 	fs := flag.NewFlagSet("hcorr", flag.ExitOnError)
 	seed := fs.Uint64("seed", 1, "PRNG seed")
 	tier := fs.String("tier", "quick", "quick|thorough")
+	fs.StringVar(&optImpl, "impl", "", "implementation variant (protocol specific)")
+	fs.StringVar(&optScratch, "scratch", "", "scratch directory for file-backed implementations")
+	fs.StringVar(&optStream, "stream", "", "generator stream (protocol specific)")
+	fs.BoolVar(&optPin, "pin", false, "lock the OS thread and flush every reply (for runs under strace fault injection)")
 	fs.Parse(os.Args[3:])
 	defer proto.Flush()
+	if optPin {
+		runtime.LockOSThread()
+		proto.FlushEach = true
+	}
 	switch os.Args[2] {
 	case "gen":
 		p.gen(*seed, *tier)
